@@ -257,12 +257,26 @@ def r2_resolution_before_use(ctx) -> None:
     else:
         r.violation("C09.R2", ref.qual, "self.rule = rule_collection[self.reference]", "reference lookup altered or its failure swallowed", ref.loc)
     gr = prog.func("sigma.rule.base.SigmaRuleBase.get_conversion_result")
-    rs = [x for x in walk_no_nested(gr.node) if isinstance(x, ast.Raise)]
-    gs = [atomic_guards(guards_at(prog, gr, x)) for x in rs]
-    if rs and "SigmaConversionError" in unparse(rs[0]) and ("self._conversion_result is None", True) in gs[0]:
-        r.ok("C09.R2", gr.qual, "absent result → SigmaConversionError", gr.loc)
+    # the getter interpreted (sa.tabulate, Proxy): an absent result is a Sigma error, a stored one is handed out
+    from ..tabulate import Proxy as _Pg, call_method as _cmg, Raised as _Rg
+    RB_ = "sigma.rule.base.SigmaRuleBase"
+
+    class SigmaConversionError(Exception):
+        def __init__(self, *a, **k): super().__init__(*[str(x) for x in a[2:3]])
+    envg = {"SigmaConversionError": SigmaConversionError}
+    IKg = {"max_steps": 2000, "behaviours": (SigmaConversionError,)}
+    outs_g = {}
+    for stored in (None, ["q1"], []):
+        me_g = _Pg(prog, RB_, envg, {"_conversion_result": stored, "_conversion_states": None}, interp_kwargs=IKg)
+        try:
+            got_g = _cmg(prog, RB_, "get_conversion_result", me_g, envg, interp_kwargs=IKg)
+            outs_g[repr(stored)] = "the stored list" if got_g is stored else repr(got_g)
+        except _Rg as ex:
+            outs_g[repr(stored)] = "SigmaConversionError" if "SigmaConversionError" in str(ex) else f"raises {ex}"
+    if outs_g == {"None": "SigmaConversionError", "['q1']": "the stored list", "[]": "the stored list"}:
+        r.ok("C09.R2", gr.qual, "absent result → SigmaConversionError; a stored result (also an empty one) is handed out (interpreted)", gr.loc)
     else:
-        r.violation("C09.R2", gr.qual, "if self._conversion_result is None: raise SigmaConversionError", "an absent conversion result of a referenced rule is not reported as a Sigma error", gr.loc)
+        r.violation("C09.R2", gr.qual, "if self._conversion_result is None: raise SigmaConversionError", f"an absent conversion result of a referenced rule is not reported as a Sigma error (or a stored one is not handed out): {outs_g}", gr.loc)
     n_reads = 0
     for q, f in sorted(prog.funcs.items()):
         if not q.startswith("sigma.conversion."):
@@ -435,34 +449,60 @@ def r4_output_switch(ctx) -> None:
     r, prog = ctx.r, ctx.prog
     r.rule("C09.R4", "the output switch is determined per resolution and monotone within it: every resolution first resets the reference-derived state of all rules (reset_references re-enables only an output that a reference disabled), then _output is only ever set to False — by references only under `not self.generate`; a manual disable_output() is never undone; both per-rule conversion functions return queries only under rule._output")
     n = 0
+    # the three operations on the switch interpreted (sa.tabulate, Proxy) as a state machine: every start state x every
+    # sequence of up to three operations, against the specified transitions
+    import itertools as _it
+    from ..tabulate import Proxy as _Ps, call_method as _cms, Raised as _Rs
+    RB_ = "sigma.rule.base.SigmaRuleBase"
+    ops_ = ("disable_output", "disable_output_by_reference", "reset_references")
+
+    def spec(state, op):
+        out, by_ref, back = state
+        if op == "disable_output":
+            return (False, False, back)
+        if op == "disable_output_by_reference":
+            return (False, True, back) if out else (out, by_ref, back)
+        return (True, False, 0) if by_ref else (out, False if by_ref else by_ref, 0)
+    bad_s = None
+    n_seq = 0
+    for start in _it.product((True, False), (True, False)):
+        if start == (True, True):
+            continue  # unreachable: a reference only records a disabling it performed
+        for ln in (1, 2, 3):
+            for seq in _it.product(ops_, repeat=ln):
+                n_seq += 1
+                me_s = _Ps(prog, RB_, {}, {"_output": start[0], "_output_disabled_by_reference": start[1], "_backreferences": ["b"]}, interp_kwargs={"max_steps": 3000})
+                want = (start[0], start[1], 1)
+                try:
+                    for op in seq:
+                        _cms(prog, RB_, op, me_s, {}, interp_kwargs={"max_steps": 3000})
+                        want = spec(want, op)
+                    got = (me_s._output, me_s._output_disabled_by_reference, len(me_s._backreferences))
+                except _Rs as ex:
+                    got = f"raises {ex}"
+                if got != want and bad_s is None:
+                    bad_s = f"from (output={start[0]}, disabled by reference={start[1]}) the operations {list(seq)} lead to (output, by reference, back references) = {got} instead of {want}"
+    sw = prog.func(RB_ + ".disable_output_by_reference")
+    if bad_s is None:
+        r.ok("C09.R4", RB_, f"disable_output / disable_output_by_reference / reset_references follow the specified transitions on {n_seq} operation sequences: a manual switch is never undone, a reference disables only an output that is on and only that is re-enabled by a reset (interpreted)", sw.loc)
+    else:
+        r.violation("C09.R4", RB_, "the output switch (disable_output, disable_output_by_reference, reset_references)",
+                    f"whether a rule emits its own query then depends on the order in which correlation rules are resolved, or a manual switch is undone: {bad_s}", sw.loc)
+    # who may write the switch: the three operations and the private helpers of the rule class they call
+    allowed_w = set(ctx.cg.reachable([f"{RB_}.{o}" for o in ops_]))
     for q, f in sorted(prog.funcs.items()):
         if not f.module.name.startswith("sigma."):
             continue
         for x in walk_no_nested(f.node):
-            if isinstance(x, ast.Attribute) and x.attr == "_output" and isinstance(x.ctx, ast.Store):
+            if isinstance(x, ast.Attribute) and x.attr in ("_output", "_output_disabled_by_reference") and isinstance(x.ctx, ast.Store):
                 st = prog.enclosing_stmt(x)
                 loc = f"{f.module.relpath}:{x.lineno}"
                 n += 1
-                gs = atomic_guards(guards_at(prog, f, st))
-                val = st.value.value if isinstance(st, ast.Assign) and isinstance(st.value, ast.Constant) else "?"
-                if val is False and f.name == "disable_output":
-                    r.ok("C09.R4", q, "self._output = False (manual switch)", loc)
-                elif val is False and f.name == "disable_output_by_reference" and ("self._output", True) in gs:
-                    r.ok("C09.R4", q, "self._output = False, recorded as caused by a reference (only if the output was on)", loc)
-                elif val is True and f.name == "reset_references" and ("self._output_disabled_by_reference", True) in gs:
-                    r.ok("C09.R4", q, "self._output = True only to undo a disabling that a reference caused", loc)
+                if q in allowed_w and f.cls is not None and prog.is_subclass(f.cls.qual, RB_) or (f.cls is not None and f.cls.qual == RB_ and q in allowed_w):
+                    r.ok("C09.R4", q, f"{unparse(st)[:70]}: inside the three switch operations (transitions interpreted above)", loc)
                 else:
                     r.violation("C09.R4", q, unparse(st),
                                 "the output switch is written outside the three admitted places (manual disable_output, disable_output_by_reference while the output is on, reset_references undoing a by-reference disabling): whether a rule emits its own query then depends on the order in which correlation rules are resolved, or a manual switch is undone", loc)
-            if isinstance(x, ast.Attribute) and x.attr == "_output_disabled_by_reference" and isinstance(x.ctx, ast.Store):
-                st = prog.enclosing_stmt(x)
-                loc = f"{f.module.relpath}:{x.lineno}"
-                val = st.value.value if isinstance(st, ast.Assign) and isinstance(st.value, ast.Constant) else "?"
-                okk = (val is True and f.name == "disable_output_by_reference") or (val is False and f.name in ("disable_output", "reset_references"))
-                if okk:
-                    r.ok("C09.R4", q, unparse(st), loc)
-                else:
-                    r.violation("C09.R4", q, unparse(st), "the record of who disabled the output is written elsewhere: a manually disabled output could be re-enabled by the next resolution", loc)
             if isinstance(x, ast.Call) and call_name(x).endswith(".disable_output_by_reference"):
                 loc = f"{f.module.relpath}:{x.lineno}"
                 gs = atomic_guards(guards_at(prog, f, x))
